@@ -15,14 +15,28 @@ EXTENDS Integers, Sequences, FiniteSets, TLC
 
 CONSTANTS Reps,        \* replica names, e.g. {"a","b","c"}
           MaxPub,      \* total number of updates published (bound)
-          MaxActs      \* total number of Trust/Distrust calls (bound)
+          MaxActs,     \* total number of Trust/Distrust/handshake/forgery steps (bound)
+          StartOrder,  \* order of the start-up steps of crdt setup(): a permutation of
+                       \* <<"val","sub","run">> (register topic validator, subscribe to the
+                       \* topic, start go-ds-crdt). As coded: <<"val","sub","run">>.
+          SignPolicy,  \* pubsub signature policy of the cluster host (clusterhost.go newPubSub):
+                       \* "strict" as coded; "lax" = unsigned messages are let through
+          JoinTrusts   \* does the consensus-level effect of the open join handshake
+                       \* (Cluster.PeerAdd -> Consensus.AddPeer) touch the trusted set? FALSE as coded
 
 VARIABLES trust,   \* trust[r] = [all |-> BOOLEAN, set |-> SUBSET Reps]   (validator state of r)
-          ever,    \* ever[r]  = peers r has trusted at some time (history; property only)
-          dag,     \* dag[r]   = updates merged by r; an update is [s |-> signer, n |-> k]
-          msgs,    \* broadcast heads in flight (never lost, may be delivered late or repeatedly)
+          ever,    \* ever[r]  = peers r has trusted at some time by configuration or a Trust call
+                   \*            (history; property only)
+          dag,     \* dag[r]   = updates merged by r; an update is [s |-> author, n |-> k]
+          msgs,    \* broadcast heads on the wire (never lost, may arrive late or repeatedly):
+                   \*   [from |-> claimed author, sig |-> "ok"|"none"|"bad", content |-> updates below the head]
+          st,      \* st[r] = [val, sub, run : BOOLEAN] start-up steps done
+          buf,     \* buf[r] = heads sitting in r's subscription, not yet handed to go-ds-crdt
           npub, nact
-pvars == <<trust, ever, dag, msgs, npub, nact>>
+pvars == <<trust, ever, dag, msgs, st, buf, npub, nact>>
+
+OrderAsCoded       == <<"val", "sub", "run">>     \* consensus/crdt/consensus.go setup()
+OrderValidatorLast == <<"sub", "run", "val">>     \* a deviation used by the negative configuration
 
 Updates == [s : Reps, n : 1..MaxPub]
 
@@ -30,51 +44,105 @@ Updates == [s : Reps, n : 1..MaxPub]
 RECURSIVE ReachFrom(_, _)
 ReachFrom(ev, S) == LET S2 == S \cup UNION {ev[q] : q \in S}
                     IN IF S2 = S THEN S ELSE ReachFrom(ev, S2)
-\* signers whose updates r may legitimately hold
+\* authors whose updates r may legitimately hold
 Legit(ev, r) == ReachFrom(ev, {r})
 PinsetOK(ev, r, pins) == \A u \in pins : u.s \in Legit(ev, r)
+\* ... at every moment, whatever the start-up position, whoever called the open
+\* endpoints, whatever was put on the wire without a valid signature
 IgnoresUntrusted == \A r \in Reps : PinsetOK(ever, r, dag[r])
 
 \* ---- transcription layer
-Validator(r, signer) == trust[r].all \/ signer = r \/ signer \in trust[r].set    \* crdt IsTrustedPeer
+Validator(r, author) == trust[r].all \/ author = r \/ author \in trust[r].set    \* crdt IsTrustedPeer
+\* gossipsub: StrictSign drops unsigned messages and verifies signatures; LaxSign verifies a
+\* signature only if there is one
+SigOK(m) == m.sig = "ok" \/ (SignPolicy = "lax" /\ m.sig = "none")
 
 TrustCfgs(r) == {[all |-> TRUE, set |-> {}]} \cup {[all |-> FALSE, set |-> s] : s \in SUBSET (Reps \ {r})}
 EverOf(t) == [r \in Reps |-> IF t[r].all THEN Reps \ {r} ELSE t[r].set]
+Up   == [val |-> TRUE, sub |-> TRUE, run |-> TRUE]
+Down == [val |-> FALSE, sub |-> FALSE, run |-> FALSE]
 
-InitWith(t) ==
+\* replicas in `down` have not run setup() yet; the others are up
+InitWith(t, down) ==
     /\ trust = t
     /\ ever = EverOf(t)
     /\ dag = [r \in Reps |-> {}]
     /\ msgs = {}
+    /\ st = [r \in Reps |-> IF r \in down THEN Down ELSE Up]
+    /\ buf = [r \in Reps |-> {}]
     /\ npub = 0 /\ nact = 0
 
+\* one step of setup(), in the order StartOrder
+StartStep(r, k) ==
+    /\ ~st[r][k]
+    /\ \E i \in 1..Len(StartOrder) : StartOrder[i] = k /\ \A j \in 1..(i - 1) : st[r][StartOrder[j]]
+    /\ st' = [st EXCEPT ![r][k] = TRUE]
+    /\ UNCHANGED <<trust, ever, dag, msgs, buf, npub, nact>>
+
 Publish(r, u) ==
+    /\ st[r].run
     /\ u.s = r /\ u \notin dag[r]
     /\ dag' = [dag EXCEPT ![r] = @ \cup {u}]
-    /\ msgs' = msgs \cup {[from |-> r, content |-> dag'[r]]}
+    /\ msgs' = msgs \cup {[from |-> r, sig |-> "ok", content |-> dag'[r]]}
     /\ npub' = npub + 1
-    /\ UNCHANGED <<trust, ever, nact>>
+    /\ UNCHANGED <<trust, ever, st, buf, nact>>
 
 Rebroadcast(r) ==
-    /\ dag[r] # {}
-    /\ msgs' = msgs \cup {[from |-> r, content |-> dag[r]]}
-    /\ UNCHANGED <<trust, ever, dag, npub, nact>>
+    /\ st[r].run /\ dag[r] # {}
+    /\ msgs' = msgs \cup {[from |-> r, sig |-> "ok", content |-> dag[r]]}
+    /\ UNCHANGED <<trust, ever, dag, st, buf, npub, nact>>
 
-Deliver(m, r) ==
+\* anybody can put on the wire the heads of replica `of` under the name of `as`,
+\* unsigned or with a signature that does not verify
+Forge(as, of, sig) ==
+    /\ sig \in {"none", "bad"} /\ as # of /\ dag[of] # {}
+    /\ msgs' = msgs \cup {[from |-> as, sig |-> sig, content |-> dag[of]]}
+    /\ nact' = nact + 1
+    /\ UNCHANGED <<trust, ever, dag, st, buf, npub>>
+
+\* what lets a head into r's subscription: r is subscribed, the signature policy,
+\* and the topic validator IF it is registered already
+Admit(m, r) ==
     /\ m \in msgs /\ r # m.from
-    /\ Validator(r, m.from)
+    /\ st[r].sub
+    /\ SigOK(m)
+    /\ st[r].val => Validator(r, m.from)
+
+\* a head reaches a replica whose go-ds-crdt is not running yet: it waits in the subscription
+Receive(m, r) ==
+    /\ Admit(m, r) /\ ~st[r].run /\ m \notin buf[r]
+    /\ buf' = [buf EXCEPT ![r] = @ \cup {m}]
+    /\ UNCHANGED <<trust, ever, dag, msgs, st, npub, nact>>
+
+\* go-ds-crdt (running) takes a buffered head and merges the DAG below it
+Apply(m, r) ==
+    /\ st[r].run /\ m \in buf[r]
+    /\ dag' = [dag EXCEPT ![r] = @ \cup m.content]
+    /\ buf' = [buf EXCEPT ![r] = @ \ {m}]
+    /\ UNCHANGED <<trust, ever, msgs, st, npub, nact>>
+
+\* running replica: admission and merge in one step
+Deliver(m, r) ==
+    /\ Admit(m, r) /\ st[r].run
     /\ ~(m.content \subseteq dag[r])
     /\ dag' = [dag EXCEPT ![r] = @ \cup m.content]
-    /\ UNCHANGED <<trust, ever, msgs, npub, nact>>
+    /\ UNCHANGED <<trust, ever, msgs, st, buf, npub, nact>>
 
 Trust(r, p) ==
     /\ trust' = [trust EXCEPT ![r].set = @ \cup {p}]
     /\ ever' = [ever EXCEPT ![r] = @ \cup {p}]
     /\ nact' = nact + 1
-    /\ UNCHANGED <<dag, msgs, npub>>
+    /\ UNCHANGED <<dag, msgs, st, buf, npub>>
 
 Distrust(r, p) ==
     /\ trust' = [trust EXCEPT ![r].set = @ \ {p}]
     /\ nact' = nact + 1
-    /\ UNCHANGED <<ever, dag, msgs, npub>>
+    /\ UNCHANGED <<ever, dag, msgs, st, buf, npub>>
+
+\* p performs the join handshake with r (open endpoint Cluster.PeerAdd ->
+\* Consensus.AddPeer(p)): not a Trust call, `ever` does not move
+JoinHandshake(r, p) ==
+    /\ trust' = IF JoinTrusts THEN [trust EXCEPT ![r].set = @ \cup {p}] ELSE trust
+    /\ nact' = nact + 1
+    /\ UNCHANGED <<ever, dag, msgs, st, buf, npub>>
 =============================================================================
